@@ -13,7 +13,7 @@ from .. import specs
 
 name = 'iter'
 RAISE_ORACLE = 'I15.raise'
-MODEL_NAMES = ['m', 'm2', 'mod el']
+MODEL_NAMES = ['m', 'm2', 'mod el', 'mode.choice_v1', 'mode.choice_v2']
 REAL_ALGOS = ['simple_bounds', 'TR-newton', 'LS-BFGS', 'scipy', 'TR-BFGS', 'LS-newton',
               'simple_bounds_newton', 'simple_bounds_BFGS']
 
@@ -26,6 +26,11 @@ def make_config(rng: random.Random, profile: str, tier: str) -> dict:
     cfg['threads'] = rng.choice([1, 1, 2, 3, 0])
     # buggify: knobs the saved-iteration logic is supposed not to depend on
     cfg['max_report'] = rng.choice([15, 15, 0, 1, 2])
+    if cfg['family'] == 'quad' and cfg['K'] <= 10 and rng.random() < 0.25:
+        # one observation, no constant: the perfect fit has a log likelihood of exactly 0.0 and is one of the points the
+        # scripted optimiser may visit ('perfect')
+        cfg.update(N=1, offset=0.0, zero_peak=True, fixed=[], cliff=None, kink=None)
+        cfg['init'] = [0.37 + 0.01 * i for i in range(cfg['K'])]
     return cfg
 
 
@@ -33,7 +38,7 @@ def _points(rng, n):
     pts = []
     for _ in range(n):
         kind = rng.choice(['better', 'better', 'worse', 'worse', 'worse2', 'repeat', 'random',
-                           'mirror', 'nonfinite', 'last', 'kink'])
+                           'mirror', 'nonfinite', 'last', 'kink', 'perfect'])
         pts.append([kind, round(rng.random(), 3), rng.randrange(1 << 16),
                     rng.choice(['f_g', 'f_g', 'f_g_h', 'f'])])
     return pts
@@ -476,6 +481,13 @@ class Session:
             x = list(self.last_x)
         elif kind == 'mirror':
             x = [2 * s - b for b, s in zip(best, star)]
+        elif kind == 'perfect' and self.cfg.get('zero_peak'):
+            # the point that reproduces the single observation exactly: log likelihood 0.0
+            row0 = {c: float(self.table[c].iloc[0]) for c in self.table.columns}
+            by_name = {nm: self.cfg['coef'][i] * row0[specs.colname(self.cfg, self.cfg['assign'][i][1])]
+                       for i, nm in enumerate(self.cfg['names'])}
+            x = [by_name[n] for n in names]
+            self.ctx.probe('evaluation at the perfect fit (log likelihood exactly 0.0)')
         elif kind in ('nonfinite', 'kink') and self.cfg.get('kink'):
             # finite value, non-finite gradient: exactly at the kink
             x = [b + (0.3 * u) * (s - b) for b, s in zip(best, star)] if kind == 'kink' else list(best)
